@@ -22,7 +22,13 @@ import (
 	"verifharness/hlib"
 )
 
-const barrierTimeout = 20 * time.Second
+const barrierTimeout = 10 * time.Second
+
+// stalls counts histories that never reached a quiescent point; after a few of them the
+// remaining generation is abandoned (every further one would cost a full timeout).
+var stalls atomic.Int64
+
+const maxStalls = 3
 
 var (
 	theLogger  *log.Logger
@@ -83,6 +89,14 @@ func main() {
 		case "seq":
 			cw.Add(c.coqSeq(), c)
 			rep.TracesValidated++
+		case "lin":
+			if c.Final != nil {
+				cw.Add(c.coqLin(), c)
+				rep.TracesValidated++
+				rep.CountN("lin:interleavings", len(c.Alts))
+			} else {
+				cw.AddJSONOnly(c)
+			}
 		default:
 			cw.AddJSONOnly(c)
 		}
@@ -100,28 +114,37 @@ func main() {
 		for _, c := range corpus() {
 			c.ID = id
 			id++
-			emit(replayCase(w, c, rep))
+			if stalls.Load() < maxStalls {
+				emit(replayCase(w, c, rep))
+			}
 		}
 		nseq := f.N
-		nconc, nlimit, nevict := f.N/6, f.N/8, 3
+		nconc, nlimit, nevict, nlin := f.N/6, f.N/8, 3, f.N/10
 		if f.Tier == "thorough" {
 			nevict = 12
 		}
-		for i := 0; i < nseq; i++ {
+		for i := 0; i < nseq && stalls.Load() < maxStalls; i++ {
 			emit(genSeqCase(rng.Fork(), w, id, rep))
 			id++
 		}
-		for i := 0; i < nlimit; i++ {
+		for i := 0; i < nlimit && stalls.Load() < maxStalls; i++ {
 			emit(genLimitCase(rng.Fork(), w, id, rep))
 			id++
 		}
-		for i := 0; i < nconc; i++ {
+		for i := 0; i < nconc && stalls.Load() < maxStalls; i++ {
 			emit(genConcCase(rng.Fork(), w, id, rep))
 			id++
 		}
-		for i := 0; i < nevict; i++ {
+		for i := 0; i < nlin && stalls.Load() < maxStalls; i++ {
+			emit(genLinCase(rng.Fork(), w, id, rep))
+			id++
+		}
+		for i := 0; i < nevict && stalls.Load() < maxStalls; i++ {
 			emit(genEvictCase(rng.Fork(), w, id, rep))
 			id++
+		}
+		if stalls.Load() >= maxStalls {
+			rep.Note("generation abandoned after repeated stalls of the pool")
 		}
 	}
 	if n := errLogs.Load(); n > 0 {
@@ -133,11 +156,15 @@ func main() {
 
 func replayCase(w *world, c *Case, rep *hlib.Report) *Case {
 	switch c.Kind {
-	case "conc":
+	case "conc", "lin":
 		for i := range c.Ops {
 			c.Ops[i].Verdicts, c.Ops[i].Snap = nil, nil
 		}
-		return runConc(w, c, rep)
+		c = runConc(w, c, rep)
+		if c.Kind == "lin" {
+			c.Alts = interleavings(c)
+		}
+		return c
 	case "evict":
 		return runEvict(nil, w, c, rep)
 	default:
